@@ -22,7 +22,7 @@ ANCHORS = ["prov.model:ProvRecord.copy", "prov.model:ProvBundle.add_record", "pr
            "prov.model:ProvBundle.__init__", "prov.model:NamespaceManager.__init__"]
 DERIVE = ["copy", "add_record", "add_record_same_document", "update_self", "ctor", "update", "add_bundle_doc", "unified", "bundle_unified",
           "flattened", "json", "xml", "rdf"]
-MUTATORS = ["add_attribute", "add_value", "add_record", "add_namespace", "set_default", "add_bundle"]
+MUTATORS = ["add_attribute", "add_value", "add_formal", "add_record", "add_namespace", "set_default", "add_bundle"]
 
 
 def plan(tier, seed):
@@ -112,18 +112,37 @@ def mutate(x, how, r, shared_hint=None):
         rec.add_attributes([(r.choice(names), "mutated-%d" % r.randint(0, 999))])
         return True
 
+    def add_formal(rec):
+        """Supply a formal attribute the record was created without (an optional argument that was left out)."""
+        import datetime
+        kind = rec.get_type().localpart
+        have = {a.localpart for a, vs in rec._attributes.items() if vs and a.uri.startswith(monitors.PROVNS)}
+        missing = [f for f in gen.KINDS.get(kind, (None, []))[1] if f not in have]
+        if not missing:
+            return False
+        f = r.choice(missing)
+        v = datetime.datetime(2031, 1, 2, 3, 4, r.randint(0, 59)) if f in gen.TIME_ATTRS else NSX["late%d" % r.randint(0, 9)]
+        rec.add_attributes([(pm.PROV[f], v)])
+        return True
+
     if isinstance(x, pm.ProvRecord):
         if how == "add_value":
             return add_value(x)
+        if how == "add_formal":
+            return add_formal(x)
         if how != "add_attribute":
             return False
         x.add_attributes([(NSX["attr"], "mutated")])
         return True
     containers = [x] + (list(x.bundles) if x.is_document() else [])
-    if how in ("add_attribute", "add_value"):
+    if how in ("add_attribute", "add_value", "add_formal"):
         recs = [rec for c in containers for rec in c._records]
         if not recs:
             return False
+        if how == "add_formal":
+            r.shuffle(recs)
+            done = [add_formal(rec) for rec in recs[:12]]
+            return any(done)
         if how == "add_value":
             r.shuffle(recs)
             return any(add_value(rec) for rec in recs[:1]) or any(add_value(rec) for rec in recs[1:4])
@@ -241,7 +260,8 @@ def judge(ctx, idx, case):
                 pairs = [(flat, other), (src, other)]
             elif dname == "unified":
                 u1 = src.unified()
-                pairs = [(src, u1), (u1, src.unified())]        # ... and a second result is independent of the first
+                pairs = [(src, u1), (u1, src.unified()), (u1, u1.unified())]    # ... a second result is independent of the first, and
+                #                                                                 the unified form of a unified document is again a new one
             elif dname == "bundle_unified":
                 bs = list(src.bundles)
                 if not bs:
@@ -287,9 +307,9 @@ def judge(ctx, idx, case):
                 # the structural walk directs the mutations: a shared container is written through on *every* container of the
                 # mutated side, so that the shared one is certainly among them
                 for how in r.sample(MUTATORS, 2) + (["add_namespace", "set_default", "add_namespace_everywhere"] if any("NamespaceManager" in s for s in shared) else []) \
-                        + (["add_attribute", "add_value"] if any("record" in s or "value set" in s for s in shared) else []) \
+                        + (["add_attribute", "add_value", "add_formal"] if any("record" in s or "value set" in s for s in shared) else []) \
                         + (["add_record_everywhere"] if any("_records" in s or "container object" in s for s in shared) else []):
-                    if dname in ("copy", "add_record_same_document", "update_self") and how not in ("add_attribute", "add_value"):
+                    if dname in ("copy", "add_record_same_document", "update_self") and how not in ("add_attribute", "add_value", "add_formal"):
                         continue
                     before = view(watched)
                     try:
